@@ -580,3 +580,24 @@ def guards_imply(guards, atom, value=True, limit=10) -> bool:
             if a[atom] != value:
                 return False
     return some
+
+
+
+def emptiness_test(c, pol: bool):
+    """(collection term, True if the guard says it is empty / False if non-empty) for a guard (c, pol) that tests the
+    emptiness of a collection in any usual spelling (truthiness, len() truthiness, len() == 0, len() < 1, len() > 0 ...)."""
+    c, pol = norm_guard(c, pol)
+    if c[0] == "call" and c[1] == "len" and len(c[2]) == 1:
+        return c[2][0], not pol
+    if c[0] == "cmp" and c[2][0] == "call" and c[2][1] == "len" and len(c[2][2]) == 1 and is_const(c[3]) and isinstance(c[3][1], int):
+        x, k = c[2][2][0], c[3][1]
+        if c[1] == "Eq" and k == 0:
+            return x, pol
+        if c[1] == "Lt" and k == 1:
+            return x, pol
+        return None
+    if c[0] == "call" and c[1] == "bool" and len(c[2]) == 1:
+        return c[2][0], not pol
+    if c[0] in ("ref", "attr", "param", "item", "call", "phi", "loopout"):
+        return c, not pol
+    return None
